@@ -146,6 +146,38 @@ def check_config(rec, idx, G, workdir, thorough, corrupt=None):
     return probs
 
 
+def mixed_file(ck, recs, G, seed):
+    """One input file whose rows carry different copy numbers, error rates AND tumour contents within the same sample:
+    every row must be evaluated with its own values (per-row lookup)."""
+    rnd = random.Random(seed + 9)
+    d = env.scratch("c05_mixed")
+    pick = rnd.sample(recs, min(8, len(recs)))
+    rows = []
+    for k, rec in enumerate(pick):
+        cfg = rec["cfg"]
+        for sn, (ref, alt) in (("S1", (14 + k, 3 + k)), ("S2", (2 * k + 1, 9))):
+            rows.append({"mutation_id": "mix%02d" % k, "sample_id": sn, "ref_counts": ref, "alt_counts": alt, "major_cn": cfg["major"], "minor_cn": cfg["minor"],
+                         "normal_cn": cfg["normal"], "tumour_content": repr(cfg["t"][0] / cfg["t"][1]), "error_rate": repr(cfg["eps"][0] / cfg["eps"][1])})
+    rnd.shuffle(rows)
+    p = os.path.join(d, "mixed.tsv")
+    write_rows(p, rows)
+    data, samples = load(p, "binomial", G, 400.0)
+    by = {dp.name: dp for dp in data}
+    for k, rec in enumerate(pick):
+        dp = by.get("mix%02d" % k)
+        ck.evaluations += 2
+        if dp is None:
+            ck.violation("C05|mixed|missing", "mutation mix%02d was not loaded" % k, {"cfg": rec["cfg"]})
+            continue
+        for si, (ref, alt) in enumerate(((14 + k, 3 + k), (2 * k + 1, 9))):
+            want = exact_grid(rec, ref, alt, "binomial", None)
+            if float(np.max(np.abs(dp.value[si] - want))) > 1e-9 * (1 + float(np.max(np.abs(want)))):
+                ck.violation("C05|mixed|row", "in a file mixing copy numbers / error rates / tumour contents, the grid of mutation %d sample %d is not that of its own row %s" % (
+                    k, si + 1, rec["cfg"]), {"cfg": rec["cfg"], "sample": si + 1})
+    ck.nontrivial("mixed_file")
+    shutil.rmtree(d, ignore_errors=True)
+
+
 def cluster_part(ck):
     """A pre-clustered data point = sum of member grids; outlier terms = log p, log(1-p) times cluster size."""
     d = env.scratch("c05_cluster")
@@ -216,6 +248,8 @@ def run(corrupt=None):
         for sig, msg, rep in probs:
             ck.violation(sig, msg, rep)
         ck.nontrivial(json.dumps(rec["cfg"], sort_keys=True))
+    mixed_file(ck, recs, G, ck.seed)
+    mixed_file(ck, recs, G, ck.seed + 1)
     cluster_part(ck)
     shutil.rmtree(workdir, ignore_errors=True)
     ck.sample({"cfg": recs[0]["cfg"], "genotypes": recs[0]["genotypes"], "vaf_first_genotype": recs[0]["vaf"][0]})
